@@ -145,6 +145,8 @@ type Plan struct {
 	// Second: at the end the application edits its configuration object in place
 	// and uses it for a second balancer
 	Second bool `json:"second,omitempty"`
+	// DynMsg: keyed calls use a message type made for this run (reflect.StructOf)
+	DynMsg bool `json:"dyn_msg,omitempty"`
 	// ScaleMix: the plan carries the "pool starts with 17-40 channels" fragment
 	ScaleMix bool `json:"scale_mix,omitempty"`
 	Ops      []Op `json:"ops"`
@@ -381,6 +383,7 @@ func Generate(r *rand.Rand, profile string, concurrent bool, av Avoid) *Plan {
 	}
 	p.Verbose = r.IntN(8) == 0 || (profile == "chaos" && r.IntN(4) == 0)
 	p.Second = !concurrent && r.IntN(6) == 0
+	p.DynMsg = r.IntN(4) == 0
 	p.SharedAddrs = r.IntN(4) == 0
 	p.OddKeys = r.IntN(6) == 0
 	if concurrent {
@@ -1148,6 +1151,7 @@ func Simplify(p *Plan) []*Plan {
 	add(func(c *Plan) bool { ch := c.SharedAddrs; c.SharedAddrs = false; return ch })
 	add(func(c *Plan) bool { ch := c.OddKeys; c.OddKeys = false; return ch })
 	add(func(c *Plan) bool { ch := c.Second; c.Second = false; return ch })
+	add(func(c *Plan) bool { ch := c.DynMsg; c.DynMsg = false; return ch })
 	for i := range p.Ops {
 		i := i
 		o := p.Ops[i]
